@@ -1,6 +1,7 @@
 #!/bin/sh
 # Runs setup and then every property's thorough tier, four at a time; one summary line each.
 cd "$(dirname "$0")"
+mkdir -p work
 ./setup.sh > work/setup.log 2>&1 || true
 mkdir -p work/sweep
 ls meta/C*.json | sed 's#meta/\(.*\)\.json#\1#' | xargs -P 4 -I{} sh -c './check {} thorough > work/sweep/{}-thorough.log 2>&1; echo "{} exit=$? $(tail -1 work/sweep/{}-thorough.log)"; grep -h "^VIOLATION" work/sweep/{}-thorough.log | head -3'
